@@ -35,3 +35,73 @@ def term_rename(prog):
     good = [n for n, ok, _ in stores if ok]
     all_paths = bool(good) and g.must_pass(g.entry, g.exit, good)
     return rt, stores, all_paths
+
+
+def term_text_verbatim(prog):
+    """Term.__init__: the text kept for a term is the caller's text up to blanks, one leading sign and one pair of
+    enclosing parentheses - never re-assembled from tokens.  -> (funcinfo, [(store stmt, ok, why)])"""
+    from ..dataflow import target_names
+    T = prog.classes.get('Term')
+    init = T.methods.get('__init__') if T else None
+    if init is None:
+        raise AnalysisError('Term.__init__ not found')
+    fl = flatten(prog, init)
+    params = fl.params()
+    src = params[1] if len(params) > 1 else None
+    defs = {}
+    for n in ast.walk(fl.node):
+        if isinstance(n, ast.Assign) and len(n.targets) == 1 and isinstance(n.targets[0], ast.Name):
+            defs.setdefault(n.targets[0].id, []).append(n.value)
+        elif isinstance(n, (ast.For, ast.comprehension)):
+            for nm in target_names(n.target):
+                defs.setdefault(nm, []).append(None)
+        elif isinstance(n, ast.AugAssign) and isinstance(n.target, ast.Name):
+            defs.setdefault(n.target.id, []).append(None)
+
+    def verbatim(e, seen=()):
+        """e denotes the input text with only blanks / a leading character / the outer characters removed"""
+        if e is None:
+            return False
+        if isinstance(e, ast.Name):
+            if e.id == src:
+                return True
+            if e.id in seen or e.id not in defs:
+                return False
+            return all(verbatim(d, seen + (e.id,)) or (isinstance(d, ast.Name) and d.id == e.id) or _self_derived(d, e.id, seen)
+                       for d in defs[e.id])
+        if isinstance(e, ast.Call) and isinstance(e.func, ast.Name) and e.func.id == 'str' and len(e.args) == 1:
+            return verbatim(e.args[0], seen)
+        if isinstance(e, ast.Call) and isinstance(e.func, ast.Attribute) and e.func.attr in ('strip', 'lstrip', 'rstrip') and not e.args:
+            return verbatim(e.func.value, seen)
+        if isinstance(e, ast.Call) and isinstance(e.func, ast.Attribute) and e.func.attr == 'replace' and len(e.args) == 2 and \
+                isinstance(e.args[0], ast.Constant) and isinstance(e.args[0].value, str) and e.args[0].value.strip() == '' and \
+                e.args[0].value != '' and isinstance(e.args[1], ast.Constant) and e.args[1].value == '':
+            return verbatim(e.func.value, seen)
+        if isinstance(e, ast.Subscript) and isinstance(e.slice, ast.Slice) and e.slice.step is None:
+            lo, hi = e.slice.lower, e.slice.upper
+            lo_ok = lo is None or (isinstance(lo, ast.Constant) and lo.value in (0, 1))
+            hi_ok = hi is None or (isinstance(hi, ast.UnaryOp) and isinstance(hi.op, ast.USub) and isinstance(hi.operand, ast.Constant)
+                                   and hi.operand.value == 1)
+            return lo_ok and hi_ok and verbatim(e.value, seen)
+        return False
+
+    def _self_derived(d, name, seen):
+        # v = v[1:] / v = v.strip() ...: derived from the variable itself by the same operations
+        class Sub(ast.NodeTransformer):
+            def visit_Name(self, node):
+                return ast.copy_location(ast.Name(id=src, ctx=node.ctx), node) if node.id == name else node
+        import copy as _c
+        from ..loader import clone
+        return verbatim(Sub().visit(clone(d)), seen + (name,))
+    out = []
+    for n in ast.walk(fl.node):
+        if isinstance(n, ast.Assign) and any(isinstance(t, ast.Attribute) and t.attr == 'Term' and isinstance(t.value, ast.Name)
+                                             and t.value.id == 'self' for t in n.targets):
+            v = n.value
+            if isinstance(v, ast.Attribute) and v.attr == 'Term' and isinstance(v.value, ast.Name) and v.value.id == src:
+                out.append((n, True, 'copied from another Term'))
+                continue
+            ok = verbatim(v)
+            out.append((n, ok, 'the text is the input text up to blanks, a leading sign and enclosing parentheses' if ok else
+                        'the stored text `%s` is re-assembled / transformed, not the text that was passed in' % unparse(v)))
+    return init, out
